@@ -17,6 +17,9 @@
                                                   then ReleaseObject's critical section, then the
                                                   slab deletion outside the lock;
                                                   heap: ~Item (members released in reverse order), free.
+   The atomic operations (AInc, ADec, ADecKeep, the pool's critical sections) are separate steps from
+   the thread-local pointer moves around them (ATake: the pointer leaves its slot, AStore: a pointer
+   enters a slot, AUntag: the counting bit is cleared); local moves are invisible to other threads.
    A reference slot holds a pointer and the "is ref-counting" bit; a non-counting reference
    (DummyRef, SetRef(item,false)) never touches the count and keeps nothing alive.  SetRef on the
    same item converts between the two kinds (start counting: increment; stop counting: decrement
@@ -426,5 +429,43 @@ Fixpoint run_sched (N K : nat) (s : state) (sched : list nat) : state * list eve
   | [] => (s, [])
   | t :: r => let '(s1, ev) := step N K s t in let '(s2, evs) := run_sched N K s1 r in (s2, ev :: evs)
   end.
+
+(* thread creation: the parent (thread 0, between two operations) hands every new thread a copy of
+   its stack before the thread starts; each copied counting reference is one more reference *)
+Fixpoint count_refs (o : nat) (l : list ref) : nat :=
+  match l with
+  | [] => 0
+  | Some (q, true) :: t => (if q =? o then 1 else 0) + count_refs o t
+  | _ :: t => count_refs o t
+  end.
+
+Fixpoint bump (h : list obj) (o : nat) (n : nat) (stk : list ref) : list obj :=
+  match h with
+  | [] => []
+  | ob :: t => set_cnt ob (o_cnt ob + n * count_refs o stk) :: bump t (S o) n stk
+  end.
+
+Definition fork_state (s : state) (progs : list (list op)) : state :=
+  let stk0 := t_stk (nth 0 (s_thr s) dthr) in
+  mkSt (bump (s_heap s) 0 (length progs) stk0)
+       (s_thr s ++ map (fun pr => mkThr stk0 [] pr) progs)
+       (s_pool s).
+
+(* is the next step of thread t a purely thread-local one (no atomic operation, no critical section)? *)
+Definition next_silent (s : state) (t : nat) : bool :=
+  let th := nth t (s_thr s) dthr in
+  match t_todo th with
+  | [] => match t_prog th with [] => false | _ => true end
+  | a :: _ =>
+      match a with
+      | AInc _ _ | ADec _ | ADecKeep _ | APoolObt _ | ADrain => false
+      | ATake _ | AUntag _ | AStore _ _ | ASlabDel _ => true
+      | ARel o n => let ob := get_obj (s_heap s) o in negb ((length (o_mem ob) <=? n) && o_pooled ob)
+      end
+  end.
+
+Definition thread_done (s : state) (t : nat) : bool :=
+  let th := nth t (s_thr s) dthr in
+  match t_todo th, t_prog th with [], [] => true | _, _ => false end.
 
 Definition ev_is_bad (e : event) : bool := match e with EvBad _ => true | _ => false end.
